@@ -297,6 +297,12 @@ func (i *dbIter) prev() bool {
 		i.iterErr()
 		return false
 	}
+	// The scan may have ended on an error of the underlying iterator instead
+	// of its first entry: newer entries of this key, possibly a deletion,
+	// were then not seen and the candidate must not be served.
+	if i.iterErr(); i.err != nil {
+		return false
+	}
 	return true
 }
 
